@@ -214,6 +214,8 @@ def run_job(job, ctx):
         compare(ctx, "x.%s.bak" % other, {"bak": s}, "E-outer-candidate", job, out)
         compare(ctx, "x.q.w", {"q.w": s}, "E-compound-key", job, out)
         compare(ctx, "x.zzz", {"yyy": s}, "E-unrelated", job, out)
+        compare(ctx, "widget.ZZZ", {"ZZZ": s}, "E-uppercase-key", job, out)        # keys are compared as written
+        compare(ctx, "widget.Zz", {"zz": s}, "E-key-case-differs", job, out)        # ... so this name maps to nothing
         # keys that are whole file names (no dot to split at): consulted by the whole-name fallback
         compare(ctx, "Dockerfile", {"Dockerfile": s}, "E-whole-name", job, out)
         compare(ctx, "pkg.v2/BUILD", {"BUILD": s}, "E-whole-name", job, out)
